@@ -50,6 +50,19 @@ func catData(extra map[string]any) func(string) map[string]any {
 	}
 }
 
+// catAlt: a second data set for every program: every boolean flipped, other lengths, other
+// strings. Histories render the same program with both (state left behind by a render with
+// other data must not show).
+func catAlt(canary string) map[string]any {
+	return catData(map[string]any{
+		"title": "Alt", "show": false, "hide": true, "n": 1, "items": []any{"z"}, "rows": [][]int{{9}},
+		"objs":  []map[string]any{{"name": "w", "on": false}},
+		"m":     map[string]any{"k1": "w1", "k9": "w9"},
+		"user":  map[string]any{"name": "Bob", "tags": []string{"r", "s"}},
+		"color": "green", "html": "<u>alt</u>", "st": catItem{Name: "A", N: 1}, "url": "/alt",
+	})(canary)
+}
+
 var CatalogFiles = Files{
 	"theme.yml":  "site: ThemeSite\ntcolor: blue\n",
 	"data/a.yml": "site: DataSite\nmenu:\n  - home\n  - about\n",
@@ -63,6 +76,9 @@ var CatalogFiles = Files{
 	"p_style.vuego":             `<div style="color: blue; margin: 0; padding: 1px" :style="{color: color, fontSize: '12px', lineHeight: 1}">{{ canary }}</div>`,
 	"p_show.vuego":              `<div style="color: blue; margin: 0; padding: 1px; top: 0" v-show="hide">{{ canary }}</div><p v-show="show" style="a: b; c: d">v</p>`,
 	"p_class.vuego":             `<div class="s" :class="{on: show, off: hide, 'x-y': n}">{{ canary }}</div><p :style="{'--c': color, backgroundColor: color}">o</p>`,
+	"p_showhtml.vuego":          `<div style="color: red" v-show="show" v-html="html"></div><p style="a: b" v-show="hide" v-text="title"></p><i style="c: d" :style="{color: color}" v-show="show" v-html="canary"></i>`,
+	"p_slotshow.vuego":          `<template include="c_twice.vuego"><b style="x: y" v-show="show" :title="color">{{ canary }}</b><i v-if="hide" style="k: v" v-show="show">h</i><u v-else :class="color" class="s">e</u></template>`,
+	"c_twice.vuego":             `<div><slot></slot></div><section><slot></slot></section>`,
 	"p_incl.vuego":              `<section><template include="c_card.vuego" :heading="title" sub="st{{ n }}" :c="canary"></template><template include="c_card.vuego" heading="second" :c="canary"></template></section>`,
 	"c_card.vuego":              `<template :required="heading"><div class="card"><h2>{{ heading }}</h2><p>{{ sub }}|{{ c }}</p></div></template>`,
 	"p_slots.vuego":             `<template include="c_modal.vuego"><template #header>H{{ canary }}</template><b>body {{ title }}</b><template v-slot:footer><i :title="color">F</i></template></template>`,
@@ -112,6 +128,8 @@ var Catalog = func() []Program {
 		{Name: "style", Page: "p_style.vuego", Data: d},
 		{Name: "show", Page: "p_show.vuego", Data: d},
 		{Name: "class", Page: "p_class.vuego", Data: d},
+		{Name: "showhtml", Page: "p_showhtml.vuego", Data: d},
+		{Name: "slotshow", Page: "p_slotshow.vuego", Data: d},
 		{Name: "incl", Page: "p_incl.vuego", Data: d},
 		{Name: "slots", Page: "p_slots.vuego", Data: d},
 		{Name: "scoped", Page: "p_scoped.vuego", Data: d},
